@@ -37,7 +37,7 @@ def run(ctx):
     protos = sorted(f[:-6] for f in os.listdir(protodir) if f.endswith(".proto"))
     stray = sorted(f for f in os.listdir(protodir) if not f.endswith(".proto"))
     ctx.rule = ("programs = the generated module and the generated page of every definition file (2 per .proto): the repository's generator is re-run "
-                "in a scratch copy and each output is byte-compared with the working tree (exhaustive); plus kernel-checked obligations: inventory bijection "
+                "in a scratch copy and each output is byte-compared with the working tree (exhaustive), and re-run with the directory of definitions listed in sorted, reversed and shuffled order (same bytes required); plus kernel-checked obligations: inventory bijection "
                 "(definitions <-> generated modules <-> generated pages) and S_py = S_proto (tables recovered by ast from each checked-in module). "
                 "distinct non-trivial = files compared byte for byte that are non-empty")
     # ---------------- (a) re-generation
@@ -74,8 +74,50 @@ def run(ctx):
                 ctx.violation("regen:" + rel, "%s differs from the generator's output at line %d: tree %r, generator %r" % (rel, ln, a[:80], b[:80]),
                               {"file": rel, "line": ln, "working_tree": a, "generator": b,
                                "how": "re-run generate_protocols.py on nintendo/files/proto in a scratch copy and compare bytes"})
+    # ---------------- (a') the order in which the directory of definitions is listed is arbitrary (os.listdir): the generator's
+    # output must not depend on it — re-run with the listing sorted, reversed and shuffled
+    orders = ["sorted", "reversed"] + ["shuffle:%d" % ctx.rng.getrandbits(16) for _ in range(2 if ctx.tier == "quick" else 10)]
+    WRAP = ("import os, sys, random, runpy\n"
+            "order = sys.argv[1]\n"
+            "_ld = os.listdir\n"
+            "def listdir(path='.'):\n"
+            "    l = sorted(_ld(path))\n"
+            "    if order == 'reversed': l.reverse()\n"
+            "    elif order.startswith('shuffle:'): random.Random(int(order[8:])).shuffle(l)\n"
+            "    return l\n"
+            "os.listdir = listdir\n"
+            "sys.argv = ['generate_protocols.py']\n"
+            "runpy.run_path('generate_protocols.py', run_name='__main__')\n")
+    def regen_in_order(order):
+        g = os.path.join(ctx.scratch, "regen_" + order.replace(":", "_"))
+        os.makedirs(os.path.join(g, "nintendo/files")); os.makedirs(os.path.join(g, "nintendo/nex")); os.makedirs(os.path.join(g, "docs/reference/nex"))
+        shutil.copy(os.path.join(repo, "generate_protocols.py"), g)
+        shutil.copytree(protodir, os.path.join(g, "nintendo/files/proto"))
+        open(os.path.join(g, "_ordered.py"), "w").write(WRAP)
+        q = subprocess.run([vf.PY, "-W", "ignore", "_ordered.py", order], cwd=g, stdout=subprocess.PIPE, stderr=subprocess.STDOUT, text=True, timeout=600)
+        return order, g, q
+    with concurrent.futures.ThreadPoolExecutor(max_workers=6) as ex:
+        for order, g, q in ex.map(regen_in_order, orders):
+            if q.returncode != 0:
+                if p.returncode == 0:
+                    ctx.violation("regen:order:" + order.split(":")[0], "generate_protocols.py fails when the definitions are listed in %s order: %s" % (order, q.stdout[-300:].strip()),
+                                  {"order": order, "output": q.stdout[-3000:]})
+                continue
+            for sub, files in (("nintendo/nex", produced_m), ("docs/reference/nex", produced_d)):
+                got = sorted(os.listdir(os.path.join(g, sub)))
+                for f in sorted(set(files) | set(got)):
+                    a = open(os.path.join(gen, sub, f), "rb").read() if f in files else None
+                    b = open(os.path.join(g, sub, f), "rb").read() if f in got else None
+                    ctx.case(key=("order", order, sub + "/" + f), nontrivial=bool(b), tag="order:" + order.split(":")[0] + (":same" if a == b else ":differs"))
+                    if a != b:
+                        ln, x, y = first_diff(a or b"", b or b"")
+                        ctx.violation("regen:order-dependent:%s/%s" % (sub, f), "the generator's output for %s/%s depends on the order in which nintendo/files/proto is listed "
+                                      "(%s order vs file-system order; first difference at line %d: %r / %r)" % (sub, f, order, ln, x[:80], y[:80]),
+                                      {"file": sub + "/" + f, "order": order, "line": ln,
+                                       "how": "run generate_protocols.py with os.listdir returning the definitions in the given order (harness/corr_C12.py regen_in_order)"})
     ctx.programs = len(produced_m) + len(produced_d)
     ctx.exhaustive = True
+    ctx.extra["listing_orders"] = orders
     ctx.extra["regenerated_files"] = ctx.programs
     ctx.extra["byte_differences"] = ndiff
     # ---------------- (b) inventory
